@@ -42,4 +42,5 @@ open Lungo.C11
 #print axioms Lungo.C11.apply_never_panics
 #print axioms Lungo.C11.record_conflict_free
 #print axioms Lungo.C11.changes_hold_partial
+#print axioms Lungo.C11.pop_change_holds
 #print axioms Lungo.C11.unset_change_holds
